@@ -230,15 +230,29 @@ func nodifyStrucType(nodes []Node) Node {
 	return NewStructType(name, members)
 }
 
+// nodifyTupleOrStructType builds a struct when the members are
+// followed with a struct definition ("<name,field,...>"), a tuple
+// otherwise.
+func nodifyTupleOrStructType(nodes []Node) Node {
+	if len(nodes) == 4 {
+		if maybe, ok := nodes[3].([]Node); ok && len(maybe) == 1 {
+			if def, ok := maybe[0].([]Node); ok && len(def) == 4 {
+				return nodifyStrucType([]Node{nodes[0], nodes[1],
+					nodes[2], def[0], def[1], def[2], def[3]})
+			}
+		}
+	}
+	return nodifyTupleType(nodes)
+}
+
 func init() {
 
 	var arrayType parsec.Parser
 	var mapType parsec.Parser
-	var structType parsec.Parser
-	var tupleType parsec.Parser
+	var tupleOrStructType parsec.Parser
 
 	var declarationType = parsec.OrdChoice(nil,
-		basicType(), &mapType, &arrayType, &structType, &tupleType)
+		basicType(), &mapType, &arrayType, &tupleOrStructType)
 
 	arrayType = parsec.And(nodifyArrayType,
 		parsec.Atom("[", "MapStart"),
@@ -254,19 +268,22 @@ func init() {
 			typeName(),
 		))
 
-	tupleType = parsec.And(nodifyTupleType,
-		parsec.Atom("(", "TypeParameterStart"),
-		&listType,
-		parsec.Atom(")", "TypeParameterClose"))
-
-	structType = parsec.And(nodifyStrucType,
-		parsec.Atom("(", "TypeParameterStart"),
-		&listType,
-		parsec.Atom(")", "TypeParameterClose"),
+	// A tuple and a struct both start with "(" types ")": parse this
+	// part once, then look for the optional struct definition.
+	// Trying a struct production first and a tuple production as a
+	// fallback parses every nested level twice (exponential time
+	// on nested tuples).
+	var structDefinition = parsec.And(nil,
 		parsec.Atom("<", "TypeDefinitionStart"),
 		structName(),
 		&typeMemberList,
 		parsec.Atom(">", "TypeDefinitionClose"))
+
+	tupleOrStructType = parsec.And(nodifyTupleOrStructType,
+		parsec.Atom("(", "TypeParameterStart"),
+		&listType,
+		parsec.Atom(")", "TypeParameterClose"),
+		parsec.Maybe(nil, structDefinition))
 
 	mapType = parsec.And(nodifyMap,
 		parsec.Atom("{", "MapStart"),
